@@ -20,7 +20,7 @@ META = {
         "tensortrax Hyperelastic wrapper with an abstract W(C) (covers every model behind it, anisotropic ones included): objectivity, P F^T symmetric, major symmetry",
         "tensortrax models neo_hooke, mooney_rivlin, yeoh, blatz_ko, lopez_pamies, saint_venant_kirchhoff: isotropy of the energy W(Q C Q^T) = W(C); "
         "stress-free reference dW/dC(I) = 0 from the real tensortrax gradient at C = I for these plus third_order_deformation, arruda_boyce, anssari_benam_bucchi, van_der_waals, alexander (symbolic parameters)",
-        "total_lagrange / updated_lagrange wrappers with an abstract objective S(F) resp. sigma(F)",
+        "total_lagrange / updated_lagrange wrappers (tensortrax back end traced through tensortrax; jax back end: the real wrapper source re-bound to NumPy primitives) around an objective S(F) resp. sigma(F)",
     ],
     "outside": ["jax models (XLA cannot be traced; their energies are compared with the tensortrax namesakes in C12)", "eigenvalue-based and micro-sphere models", "isotropy of third_order_deformation, arruda_boyce, anssari_benam_bucchi, van_der_waals (measured: not decided within the budget)", "rotation by exactly 180 degrees about an axis (t = infinity) as a single factor"],
     "assumptions": ["composition argument for general rotations"],
@@ -208,6 +208,65 @@ def case_lagrange_wrappers(ctx, which, axis):
         ctx.equal("elasticity_is_dP_dF", A, ctx.jacobian(lambda X: np.asarray(umat.gradient([q(X), None])[0])[:, :, 0, 0], F), rtol_replay=1e-5)
 
 
+def case_jax_lagrange(ctx, which, axis):
+    """jax back end: total_lagrange / updated_lagrange wrappers (real source re-bound to NumPy primitives in the
+    symbolic run; the real jax code in float mode) around an objective S(F) / sigma(F)"""
+    import types
+
+    import felupe.constitution.jax as fj
+
+    F = Fvar(ctx, 3)
+    ctx.assume(det3(F) > 0.2)
+    Q = rot(ctx, axis)
+    mu, lm = ctx.var("mu", 0.1, 5), ctx.var("lmbda", 0.1, 5)
+    if ctx.sym:
+        from symnp.npproxy import PROXY
+
+        xp_det = lambda A: PROXY.linalg.det(np.asarray(A, dtype=object))  # noqa: E731
+        eye = np.eye(3, dtype=int)
+    else:
+        import jax
+        import jax.numpy as jnp
+
+        jax.config.update("jax_enable_x64", True)
+        xp_det = jnp.linalg.det
+        eye = jnp.eye(3)
+
+    if which == "total":
+
+        def material(F, mu, lmbda):
+            C = F.T @ F
+            Ee = (C - eye) / 2
+            S_ = 2 * mu * Ee + lmbda * (Ee[0, 0] + Ee[1, 1] + Ee[2, 2]) * eye
+            return S_ if not ctx.sym else (S_, None)
+
+        wrapped = fj.total_lagrange(material)
+    else:
+
+        def material(F, mu, lmbda):
+            b = F @ F.T
+            J = xp_det(F)
+            sig = (mu * (b - eye) + lmbda * (J - 1) * J * eye) / J
+            return sig if not ctx.sym else (sig, None)
+
+        wrapped = fj.updated_lagrange(material)
+
+    if ctx.sym:
+        shim = types.SimpleNamespace(linalg=types.SimpleNamespace(det=xp_det, inv=lambda A: PROXY.linalg.inv(np.asarray(A, dtype=object))))
+        g = dict(wrapped.__globals__)
+        g["jnp"] = shim
+        wrapped = types.FunctionType(wrapped.__code__, g, wrapped.__name__, wrapped.__defaults__, wrapped.__closure__)
+        call = lambda X: np.asarray(wrapped(np.asarray(X, dtype=object), mu, lm), dtype=object)  # noqa: E731
+    else:
+        call = lambda X: np.asarray(wrapped(jnp.asarray(np.asarray(X, dtype=float)), mu, lm), dtype=float)  # noqa: E731
+    P = call(F)
+    PQ = call(mm(Q, F))
+    ctx.equal("objectivity_P(QF)=Q_P(F)", PQ, mm(Q, P), rtol_replay=1e-8)
+    if axis == 0:
+        ctx.equal("kirchhoff_stress_symmetric", mm(P, F.T), mm(P, F.T).T, rtol_replay=1e-8)
+        ctx.equal("stress_free_reference", call(ctx.const_array(np.eye(3))), np.zeros((3, 3), dtype=int))
+
+
 def cases(tier):
     out = []
     axes = (0, 1, 2)
@@ -226,4 +285,5 @@ def cases(tier):
     for which in ("total", "updated"):
         for ax in (0, 2) if tier == "quick" else axes:
             out.append(("lagrange_wrappers", case_lagrange_wrappers, {"which": which, "axis": ax}))
+            out.append(("jax_lagrange", case_jax_lagrange, {"which": which, "axis": ax}))
     return out
